@@ -27,7 +27,7 @@ MANIFEST = {
 RULE = ("Junctions: decimal numerals at 2^k-1, 2^k, 2^k+1 for k in 8,16,32,64,128,256 and random magnitudes up to "
         "2^300, leading zeros, Unicode decimal digits, numeric-but-not-decimal code points, texts whose encoding is "
         "28..35 bytes (1-4 byte characters), 63/64 and 16383/16384 bytes, lone surrogates; path strings from the "
-        "grammar plus mutations; derivation triples over Substrate coins.")
+        "grammar plus mutations; derivation triples over Substrate coins. Numeric-but-not-decimal code points are text junctions.")
 TRUSTED = ["sr25519 hard/soft/public derivation and Blake2b-256 are oracles (py-sr25519-bindings, hashlib)",
            "soft_commutes_public assumes the schnorrkel law pub(derive_keypair(cc, pk, sk)) = derive_pubkey(cc, pk)"]
 ASSUMPTIONS = ["schnorrkel soft-derivation law (public half of derive_keypair equals derive_pubkey)",
@@ -65,8 +65,7 @@ def ref_chain_code(body):
         if v >= 1 << 256 or len(body) > 4300:
             return "SubstratePathError"
         return v.to_bytes(32, "little")
-    if body.isnumeric():
-        return "SubstratePathError"          # numeric but not a decimal numeral: refused (F5 fix)
+    # everything else is text -- also characters that are numeric without being decimal digits ('²', '½', CJK numerals)
     try:
         enc = body.encode("utf-8")
     except UnicodeEncodeError:
@@ -289,61 +288,6 @@ FUNCS = {
 }
 
 
-# ----------------------------------------------------------------------------- known finding F5 (Substrate side)
-
-def _body_is_f5(body):
-    if not body.isnumeric():
-        return False
-    try:
-        int(body)
-    except ValueError:
-        return True
-    return False
-
-
-def f5_chain_code_numeric_not_int(fn, args, record):
-    if fn == "sub_chain_code":
-        ok = _body_is_f5(args[0])
-    elif fn == "sub_derive":
-        sk, _, s = args
-        ok = False
-        if s == "" or s.startswith("/"):
-            for e in re.findall(r"\/+[^/]+", s):
-                if e.rfind("/") >= 2:
-                    break
-                body = e.replace("/", "")
-                if not sk and e.startswith("//"):
-                    break
-                if _body_is_f5(body):
-                    ok = True
-                    break
-                if body.isnumeric():
-                    if int(body) >= 1 << 256:
-                        break
-                else:
-                    try:
-                        body.encode("utf-8")
-                    except UnicodeEncodeError:
-                        break
-    else:
-        return False
-    if not ok:
-        return False
-    if record.get("kind") == "divergence":
-        return record["model"] == {"err": "SubstratePathError"} and record["impl"] == {"err": "ValueError"}
-    return "instead of SubstratePathError" in record.get("what", "")
-
-
-def f5_chain_code_numeric_not_int_replay():
-    try:
-        SubstratePathElem("/²").ChainCode()
-    except SubstratePathError:
-        return None
-    except ValueError:
-        return "SubstratePathElem('/\\u00b2').ChainCode() raises a bare ValueError"
-    return "SubstratePathElem('/\\u00b2').ChainCode() returns a value"
-
-
 # ----------------------------------------------------------------------------- generators
 
 def tables():
@@ -456,13 +400,13 @@ def generate(ctx):
             ctx.run("sub_chain_code", [text_of_len(rng, n)], "text-len-%d" % n)
     for n in (62, 63, 64, 65, 16382, 16383, 16384, 16385):
         ctx.run("sub_chain_code", [text_of_len(rng, n)], "text-prefix-mode")
-    for c in (nnd if not ctx.quick else rng.sample(nnd, 120)):
-        ctx.run("sub_chain_code", [chr(c)], "numeric-not-decimal")
+    for c in nnd:                                            # every numeric-but-not-decimal code point: a text junction
+        ctx.run("sub_chain_code", [chr(c)], "numeric-not-decimal-text")
     for z in zeros:
         ctx.run("sub_chain_code", ["".join(chr(z + d) for d in (2, 5, 6))], "script")
     ctx.note_exhaustive("chain code: every decimal script (%d); numerals at 2^k-1, 2^k, 2^k+1 for k in 8..256; every encoded "
-                        "text length 27..37 and the 63/64, 16383/16384 prefix switches%s" %
-                        (len(zeros), "" if ctx.quick else "; every numeric-not-decimal code point"))
+                        "text length 27..37 and the 63/64, 16383/16384 prefix switches; every numeric-but-not-decimal code point "
+                        "(%d) as a text junction" % (len(zeros), len(nnd)))
     for _ in range(ctx.n(300, 8000)):
         ctx.run("sub_chain_code", [rand_junction_body(rng, zeros, nnd).replace("/", "")], "rand")
 
